@@ -241,7 +241,7 @@ NoText == << >>
 Budget == nblocks < MaxBlocks /\ phase = "typing"
 
 (* sharding of exhaustive runs over separate TLC processes: a shard explores the documents whose first block is of one kind *)
-FirstKindOk(kind) == kind \in EnabledKinds /\ (IOEnv.SHARD = "-" \/ src # << >> \/ open # << >> \/ IOEnv.SHARD = kind)
+FirstKindOk(kind) == kind \in EnabledKinds /\ (IOEnv.SHARD = "-" \/ Len(nodes) > 1 \/ defs # << >> \/ open # << >> \/ IOEnv.SHARD = kind)
 
 ---------------------------------------------------------------------------
 (* leaf blocks.  `lines` are the content lines (without container prefixes) *)
@@ -524,8 +524,9 @@ Finish ==
     /\ UNCHANGED <<src, open, nodes, loose, defs, last, nblocks, target>>
 
 Init ==
-    /\ src = << >> /\ open = << >> /\ nodes = <<Node("Document", 0, 1, 0, NoText, "")>> /\ loose = {} /\ defs = << >>
-    /\ last = [kind |-> "none", mtype |-> "", inner |-> "none"] /\ nblocks = 0 /\ phase = "typing" /\ tags = {}
+    /\ src \in Pick({<< >>}, {<< >>, <<"">>}, {<< >>, <<"">>, <<"", "  ">>})       \* a document may begin with blank lines
+    /\ open = << >> /\ nodes = <<Node("Document", 0, 1, 0, NoText, "")>> /\ loose = {} /\ defs = << >>
+    /\ last = [kind |-> "none", mtype |-> "", inner |-> "none"] /\ nblocks = 0 /\ phase = "typing" /\ tags = NcIf(\E i \in DOMAIN src : src[i] # "")     \* (the renderer writes a blank line empty)
     /\ target \in (IF Rich THEN 2..MaxBlocks ELSE {1})
 
 Next == TypePara \/ TypeAtx \/ TypeSetext \/ TypeHr \/ TypeFence \/ TypeIndented \/ TypeDef \/ TypeTable \/ TypeHtml
